@@ -180,3 +180,53 @@ void h_Z_Parameters_write(void)
   Parameters__write(self, f);
   VF_CANARY();
 }
+
+/* ---------------------------------------------------------------- Point::write / Channel::write : raw float bytes (C01 C12 C14) */
+#define FL(o) ((unsigned)f->buf[(o)] | ((unsigned)f->buf[(o) + 1] << 8) | ((unsigned)f->buf[(o) + 2] << 16) | ((unsigned)f->buf[(o) + 3] << 24))
+#define P0 ((size_t)__CPROVER_old(f->pos))
+void contract_Point__write(const struct Point *self, vf_stream *f)
+__CPROVER_requires(vf_exc == 0 && __CPROVER_r_ok(self, sizeof(*self)) && self->_data.size == 4 && __CPROVER_r_ok(self->_data.data, 4 * sizeof(float)) &&
+                   VF_OSTREAM_OK(f) && f->cap == 64 && f->pos <= 48 && f->len == (size_t)f->pos && !vf_fault_enabled)
+__CPROVER_assigns(f->pos, f->len, f->fail, __CPROVER_object_whole(f->buf))
+/*@ C01 C03 C14 : Point_write.sixteen-bytes */ __CPROVER_ensures(!f->fail && (size_t)f->pos == P0 + 16 && f->len == (size_t)f->pos)
+/*@ C01 C12 C14 : Point_write.x-bits */ __CPROVER_ensures(FL(P0) == vf_bits_of(self->_data.data[0]))
+/*@ C01 C12 C14 : Point_write.y-bits */ __CPROVER_ensures(FL(P0 + 4) == vf_bits_of(self->_data.data[1]))
+/*@ C01 C12 C14 : Point_write.z-bits */ __CPROVER_ensures(FL(P0 + 8) == vf_bits_of(self->_data.data[2]))
+/*@ C01 C12 C14 : Point_write.residual-bits */ __CPROVER_ensures(FL(P0 + 12) == vf_bits_of(self->_data.data[3]))
+/*@ C10 C14 : Point_write.nothrow */ __CPROVER_ensures(vf_exc == 0);
+
+void h_Point_write(void)
+{
+  struct Point *self = (struct Point *)vf_alloc(sizeof(*self));
+  self->_data.size = 4;
+  self->_data.data = (float *)vf_alloc(4 * sizeof(float));
+  vf_stream *f = vf_mk_ostream(64);
+  long p0;
+  __CPROVER_assume(p0 >= 0 && p0 <= 48);
+  f->pos = p0;
+  f->len = (size_t)p0;
+  vf_fault_enabled = 0;
+  Point__write(self, f);
+  VF_CANARY();
+}
+
+void contract_Channel__write(const struct Channel *self, vf_stream *f)
+__CPROVER_requires(vf_exc == 0 && __CPROVER_r_ok(self, sizeof(*self)) && VF_OSTREAM_OK(f) && f->cap == 64 && f->pos <= 60 &&
+                   f->len == (size_t)f->pos && !vf_fault_enabled)
+__CPROVER_assigns(f->pos, f->len, f->fail, __CPROVER_object_whole(f->buf))
+/*@ C01 C03 C14 : Channel_write.four-bytes */ __CPROVER_ensures(!f->fail && (size_t)f->pos == P0 + 4 && f->len == (size_t)f->pos)
+/*@ C01 C12 C14 : Channel_write.value-bits */ __CPROVER_ensures(FL(P0) == vf_bits_of(self->_data))
+/*@ C10 C14 : Channel_write.nothrow */ __CPROVER_ensures(vf_exc == 0);
+
+void h_Channel_write(void)
+{
+  struct Channel *self = (struct Channel *)vf_alloc(sizeof(*self));
+  vf_stream *f = vf_mk_ostream(64);
+  long p0;
+  __CPROVER_assume(p0 >= 0 && p0 <= 60);
+  f->pos = p0;
+  f->len = (size_t)p0;
+  vf_fault_enabled = 0;
+  Channel__write(self, f);
+  VF_CANARY();
+}
